@@ -130,6 +130,17 @@ Proof. fcbv. apply f_equal. list_eq; div_congr. Qed.
 
 End V4.
 
+(* mi_loss / nmi_loss: the default intensity range is (min of both minima, max of both maxima), hence the same
+   for (input, target) and (target, input) -- the abstract bin centres of the symmetry theorem do not depend on
+   the order of the images *)
+Lemma mi_default_range_ok (fmin2 fmax2 : K -> K -> K) (xmin xmax tmin tmax : K) :
+  gen_mi_default_range fmin2 fmax2 xmin xmax tmin tmax = (fmin2 xmin tmin, fmax2 xmax tmax) /\
+  ((forall a b, fmin2 a b = fmin2 b a) -> (forall a b, fmax2 a b = fmax2 b a) ->
+   gen_mi_default_range fmin2 fmax2 tmin tmax xmin xmax = gen_mi_default_range fmin2 fmax2 xmin xmax tmin tmax).
+Proof.
+  split; [reflexivity|]. intros Hmin Hmax. unfold gen_mi_default_range. rewrite (Hmin tmin xmin), (Hmax tmax xmax). reflexivity.
+Qed.
+
 (* mask of shape (1, 1, X) on a (2, 2, X) batch *)
 Lemma gen_ssd_bcast_ok (x0 x1 x2 x3 x4 x5 x6 x7 y0 y1 y2 y3 y4 y5 y6 y7 w0 w1 : K) :
   Some (gen_ssd_bcast_mean [x0; x1; x2; x3; x4; x5; x6; x7] [y0; y1; y2; y3; y4; y5; y6; y7] [w0; w1])
